@@ -1,3 +1,1137 @@
-From Coq Require Import List.
+(** C11 - proofs about the executable model of coq/C11/Model.v (the definitions the correspondence
+    check runs).  Everything is discrete (lists, strings, naturals); no axioms are used. *)
+From Coq Require Import ZArith List Bool String Ascii Arith Lia Permutation.
+From Coq Require Import Decimal DecimalString DecimalNat.
 From HV Require Import C11.Model.
-Lemma stub : True. Proof. exact I. Qed.
+Import ListNotations.
+Local Open Scope string_scope.
+Local Open Scope list_scope.
+
+(** ================================================================================================
+    1. strings, fresh names *)
+
+Lemma smem_In s l : smem s l = true <-> In s l.
+Proof.
+  unfold smem. rewrite existsb_exists. split.
+  - intros [x [Hx He]]. apply String.eqb_eq in He. subst. exact Hx.
+  - intros H. exists s. split; [exact H|apply String.eqb_refl].
+Qed.
+Lemma smem_false s l : smem s l = false <-> ~ In s l.
+Proof. rewrite <- smem_In. destruct (smem s l); split; congruence. Qed.
+
+Lemma nstr_inj a b : nstr a = nstr b -> a = b.
+Proof.
+  unfold nstr. intros H.
+  assert (E : Some (Nat.to_uint a) = Some (Nat.to_uint b))
+    by (rewrite <- !NilEmpty.usu, H; reflexivity).
+  inversion E as [E']. rewrite <- (Unsigned.of_to a), <- (Unsigned.of_to b), E'. reflexivity.
+Qed.
+
+Lemma append_inj_l p a b : (p ++ a)%string = (p ++ b)%string -> a = b.
+Proof. induction p as [|c p IH]; simpl; intros H; [exact H|]. inversion H. auto. Qed.
+
+Definition cand (base : string) (k : nat) : string := (base ++ "_" ++ nstr k)%string.
+Lemma cand_inj base a b : cand base a = cand base b -> a = b.
+Proof. unfold cand. intros H. apply append_inj_l in H. apply append_inj_l in H. apply nstr_inj, H. Qed.
+
+Definition cands (base : string) (k n : nat) : list string := map (cand base) (seq k n).
+
+Lemma cands_NoDup base k n : NoDup (cands base k n).
+Proof.
+  unfold cands. revert k. induction n as [|n IH]; intros k; simpl; [constructor|].
+  constructor; [|apply IH].
+  intros H. apply in_map_iff in H. destruct H as [j [Hj Hin]]. apply cand_inj in Hj.
+  apply in_seq in Hin. lia.
+Qed.
+
+Lemma fresh_loop_0 base k nms : fresh_loop 0 base k nms = cand base k.
+Proof. reflexivity. Qed.
+Lemma fresh_loop_S f base k nms :
+  fresh_loop (S f) base k nms = if smem (cand base k) nms then fresh_loop f base (S k) nms else cand base k.
+Proof. reflexivity. Qed.
+
+(** the search stops at a free name as soon as one of the candidates it may visit is free *)
+Lemma fresh_loop_free base nms : forall fuel k,
+  ~ incl (cands base k (S fuel)) nms -> ~ In (fresh_loop fuel base k nms) nms.
+Proof.
+  induction fuel as [|f IH]; intros k Hn.
+  - rewrite fresh_loop_0. intros Hin. apply Hn. intros x [Hx|[]]. subst. exact Hin.
+  - rewrite fresh_loop_S. destruct (smem (cand base k) nms) eqn:E.
+    + apply IH. intros Hi. apply Hn. unfold cands in *. simpl. intros x [Hx|Hx].
+      * subst. apply smem_In, E.
+      * apply Hi. exact Hx.
+    + apply smem_false, E.
+Qed.
+
+(** once the search has found a free name, more fuel does not change the result *)
+Lemma fresh_loop_stable base nms : forall fuel k extra,
+  ~ In (fresh_loop fuel base k nms) nms ->
+  fresh_loop (fuel + extra) base k nms = fresh_loop fuel base k nms.
+Proof.
+  induction fuel as [|f IH]; intros k extra H.
+  - rewrite fresh_loop_0 in *. destruct extra; simpl plus; [reflexivity|]. rewrite fresh_loop_S.
+    apply smem_false in H. rewrite H. reflexivity.
+  - simpl plus. rewrite fresh_loop_S in H. rewrite !fresh_loop_S.
+    destruct (smem (cand base k) nms); [apply IH, H|reflexivity].
+Qed.
+
+Lemma fresh_loop_pigeonhole base nms : ~ In (fresh_loop (S (List.length nms)) base 0 nms) nms.
+Proof.
+  apply fresh_loop_free. intros Hi.
+  pose proof (NoDup_incl_length (cands_NoDup base 0 (S (S (List.length nms)))) Hi) as Hl.
+  unfold cands in Hl. rewrite map_length, seq_length in Hl. lia.
+Qed.
+
+Lemma fresh_name_not_in name nms : ~ In (fresh_name name nms) nms.
+Proof.
+  unfold fresh_name. destruct (smem name nms) eqn:E.
+  - apply fresh_loop_pigeonhole.
+  - apply smem_false, E.
+Qed.
+
+(** the python loop is unbounded; the model's fuel S(length names) is enough: any larger bound gives the
+    same name, the name is free, it is the FIRST free candidate base_k *)
+Lemma fresh_name_terminates_l base nms extra :
+  fresh_loop (S (List.length nms) + extra) base 0 nms = fresh_loop (S (List.length nms)) base 0 nms
+  /\ ~ In (fresh_loop (S (List.length nms)) base 0 nms) nms.
+Proof. split; [apply fresh_loop_stable|]; apply fresh_loop_pigeonhole. Qed.
+
+Lemma fresh_loop_first base nms : forall fuel k,
+  exists j, fresh_loop fuel base k nms = cand base (k + j) /\ j <= fuel /\
+            forall i, i < j -> In (cand base (k + i)) nms.
+Proof.
+  induction fuel as [|f IH]; intros k; [rewrite fresh_loop_0|rewrite fresh_loop_S].
+  - exists 0. rewrite Nat.add_0_r. repeat split; [lia|intros; lia].
+  - destruct (smem (cand base k) nms) eqn:E.
+    + destruct (IH (S k)) as [j [H1 [H2 H3]]]. exists (S j). repeat split.
+      * rewrite H1. f_equal. lia.
+      * lia.
+      * intros i Hi. destruct i; [rewrite Nat.add_0_r; apply smem_In, E|].
+        replace (k + S i) with (S k + i) by lia. apply H3. lia.
+    + exists 0. rewrite Nat.add_0_r. repeat split; [lia|intros; lia].
+Qed.
+
+(** ================================================================================================
+    2. list helpers *)
+
+Lemma set_nth_length {A} (x : A) : forall l i, List.length (set_nth i x l) = List.length l.
+Proof. induction l as [|y t IH]; intros [|i]; simpl; auto. Qed.
+
+Lemma set_nth_In {A} (x y : A) : forall l i, In y (set_nth i x l) -> y = x \/ In y l.
+Proof.
+  induction l as [|z t IH]; intros [|i]; simpl; auto.
+  - intros [H|H]; auto.
+  - intros [H|H]; auto. destruct (IH _ H); auto.
+Qed.
+
+Lemma set_nth_NoDup {A} (x : A) : forall l i, NoDup l -> ~ In x l -> NoDup (set_nth i x l).
+Proof.
+  induction l as [|z t IH]; intros [|i] Hn Hx; simpl; auto.
+  - inversion Hn; subst. constructor; [|assumption]. intros H. apply Hx. right. exact H.
+  - inversion Hn; subst. constructor.
+    + intros H. apply set_nth_In in H. destruct H as [H|H]; [|contradiction].
+      subst. apply Hx. left. reflexivity.
+    + apply IH; [assumption|]. intros H. apply Hx. right. exact H.
+Qed.
+
+Lemma NoDup_snoc {A} (l : list A) x : NoDup l -> ~ In x l -> NoDup (l ++ [x]).
+Proof.
+  intros Hn Hx. apply NoDup_rev in Hn. rewrite <- (rev_involutive (l ++ [x])).
+  apply NoDup_rev. rewrite rev_app_distr. simpl. constructor; [|exact Hn].
+  rewrite <- in_rev. exact Hx.
+Qed.
+
+Lemma select_map {A B} (f : A -> B) : forall fl l, map f (select fl l) = select fl (map f l).
+Proof.
+  induction fl as [|b fl IH]; intros [|x l]; simpl; try reflexivity.
+  destruct b; simpl; rewrite IH; reflexivity.
+Qed.
+
+(** ---- find_id ---------------------------------------------------------------------------------- *)
+Definition ext (ps ps' : list nat) : Prop := exists q, ps' = ps ++ q.
+Lemma ext_refl ps : ext ps ps. Proof. exists []. rewrite app_nil_r. reflexivity. Qed.
+Lemma ext_trans a b c : ext a b -> ext b c -> ext a c.
+Proof. intros [q1 ->] [q2 ->]. exists (q1 ++ q2). rewrite app_assoc. reflexivity. Qed.
+
+Lemma find_id_app_some id : forall ps q i, find_id id ps = Some i -> find_id id (ps ++ q) = Some i.
+Proof.
+  induction ps as [|p t IH]; simpl; intros q i H; [discriminate|].
+  destruct (Nat.eqb p id); [exact H|].
+  destruct (find_id id t) as [n|]; simpl in *; [|discriminate].
+  rewrite (IH q n eq_refl). exact H.
+Qed.
+Lemma find_id_app_new id : forall ps, find_id id ps = None -> find_id id (ps ++ [id]) = Some (List.length ps).
+Proof.
+  induction ps as [|p t IH]; simpl; intros H.
+  - rewrite Nat.eqb_refl. reflexivity.
+  - destruct (Nat.eqb p id); [discriminate|].
+    destruct (find_id id t); [discriminate|]. rewrite IH by reflexivity. reflexivity.
+Qed.
+Lemma find_id_none id : forall ps, find_id id ps = None <-> ~ In id ps.
+Proof.
+  induction ps as [|p t IH]; simpl; [tauto|].
+  destruct (Nat.eqb p id) eqn:E.
+  - apply Nat.eqb_eq in E. split; [discriminate|]. intros H. exfalso. apply H. auto.
+  - apply Nat.eqb_neq in E. destruct (find_id id t); simpl.
+    + split; [discriminate|]. intros H. exfalso.
+      assert (X : Some n = None) by (apply IH; intros Hi; apply H; right; exact Hi). discriminate.
+    + split; [|reflexivity]. intros _ [H|H]; [auto|]. destruct IH as [IH _]. apply (IH eq_refl), H.
+Qed.
+Lemma find_id_some id : forall ps i, find_id id ps = Some i -> i < List.length ps /\ nth i ps 0 = id.
+Proof.
+  induction ps as [|p t IH]; simpl; intros i H; [discriminate|].
+  destruct (Nat.eqb p id) eqn:E.
+  - inversion H; subst. apply Nat.eqb_eq in E. split; [lia|exact E].
+  - destruct (find_id id t) as [n|]; simpl in H; [|discriminate]. inversion H; subst.
+    destruct (IH n eq_refl). split; [lia|assumption].
+Qed.
+Lemma find_id_In id ps : In id ps -> exists i, find_id id ps = Some i.
+Proof.
+  intros H. destruct (find_id id ps) as [i|] eqn:E; [eauto|]. apply find_id_none in E. contradiction.
+Qed.
+
+(** ================================================================================================
+    3. convert_to_map: parameters, names, read_map *)
+
+(** induction principle for the nested tree type *)
+Section PvInd.
+Variable P : pv -> Prop.
+Hypothesis HC : forall c, P (PConst c).
+Hypothesis HP : forall id, P (PPrior id).
+Hypothesis HN : forall k ch, Forall P ch -> P (PNode k ch).
+Fixpoint pv_ind' (t : pv) : P t :=
+  match t with
+  | PConst c => HC c
+  | PPrior id => HP id
+  | PNode k ch => HN k ch ((fix go l : Forall P l :=
+                              match l with [] => Forall_nil _ | x :: r => Forall_cons _ (pv_ind' x) (go r) end) ch)
+  end.
+End PvInd.
+
+(** the prior sites of a tree in traversal order (with repetitions) *)
+Fixpoint sites (t : pv) : list nat :=
+  match t with PConst _ => [] | PPrior id => [id] | PNode _ ch => flat_map sites ch end.
+
+(** "append if not yet present (by identity)": the distinct ids in first-occurrence order *)
+Definition add1 (ps : list nat) (id : nat) : list nat :=
+  match find_id id ps with Some _ => ps | None => ps ++ [id] end.
+Definition add_new (ps ids : list nat) : list nat := fold_left add1 ids ps.
+
+Lemma add_new_app ps a b : add_new ps (a ++ b) = add_new (add_new ps a) b.
+Proof. apply fold_left_app. Qed.
+Lemma add1_ext ps id : ext ps (add1 ps id).
+Proof. unfold add1. destruct (find_id id ps); [apply ext_refl|exists [id]; reflexivity]. Qed.
+Lemma add_new_ext : forall ids ps, ext ps (add_new ps ids).
+Proof.
+  induction ids as [|x r IH]; intros ps; simpl; [apply ext_refl|].
+  eapply ext_trans; [apply add1_ext|apply IH].
+Qed.
+Lemma add1_NoDup ps id : NoDup ps -> NoDup (add1 ps id).
+Proof.
+  intros H. unfold add1. destruct (find_id id ps) eqn:E; [exact H|].
+  apply NoDup_snoc; [exact H|apply find_id_none, E].
+Qed.
+Lemma add_new_NoDup : forall ids ps, NoDup ps -> NoDup (add_new ps ids).
+Proof. induction ids as [|x r IH]; intros ps H; simpl; [exact H|apply IH, add1_NoDup, H]. Qed.
+Lemma add1_In ps id x : In x (add1 ps id) <-> In x ps \/ x = id.
+Proof.
+  unfold add1. destruct (find_id id ps) as [i|] eqn:E.
+  - split; [auto|]. intros [H|H]; [exact H|]. subst.
+    destruct (find_id_some _ _ _ E) as [Hl Hn]. rewrite <- Hn. apply nth_In, Hl.
+  - rewrite in_app_iff. simpl. intuition.
+Qed.
+Lemma add_new_In : forall ids ps x, In x (add_new ps ids) <-> In x ps \/ In x ids.
+Proof.
+  induction ids as [|y r IH]; intros ps x; simpl; [tauto|].
+  rewrite IH, add1_In. intuition.
+Qed.
+
+(** position of a prior in the final parameter list *)
+Definition idx (ps : list nat) (id : nat) : nat :=
+  match find_id id ps with Some i => i | None => List.length ps end.
+
+Lemma idx_nth : forall ps i, NoDup ps -> i < List.length ps -> idx ps (nth i ps 0) = i.
+Proof.
+  unfold idx. induction ps as [|p t IH]; intros i Hn Hi; simpl in *; [lia|].
+  inversion Hn; subst. destruct i as [|i].
+  - rewrite Nat.eqb_refl. reflexivity.
+  - destruct (Nat.eqb p (nth i t 0)) eqn:E.
+    + apply Nat.eqb_eq in E. exfalso. apply H1. rewrite E. apply nth_In. lia.
+    + specialize (IH i H2 ltac:(lia)). destruct (find_id (nth i t 0) t); simpl; [f_equal; exact IH|].
+      lia.
+Qed.
+Lemma nth_idx_map {B} (g : nat -> B) d ps id : In id ps -> nth (idx ps id) (map g ps) d = g id.
+Proof.
+  intros H. unfold idx. destruct (find_id_In _ _ H) as [i E]. rewrite E.
+  destruct (find_id_some _ _ _ E) as [Hl Hn].
+  rewrite (nth_indep _ d (g 0)) by (rewrite map_length; exact Hl). rewrite map_nth, Hn. reflexivity.
+Qed.
+
+(** state invariant: names pairwise distinct, one name per parameter *)
+Definition Inv (st : mstate) : Prop :=
+  NoDup (names st) /\ List.length (names st) = List.length (params st).
+
+Lemma Inv_st0 : Inv st0. Proof. split; [constructor|reflexivity]. Qed.
+
+Ltac spl := repeat match goal with |- _ /\ _ => split end.
+
+Section Conv.
+Variable pname : nat -> option string.
+Variable ap : fn -> list val -> val.
+
+Lemma conv_node k ch name st :
+  conv pname (PNode k ch) name st =
+  let '(ms, st') := conv_list pname (child_prefix k (List.length ch) name) ch (child_keys k (List.length ch)) st in
+  (wrap k ms, st').
+Proof.
+  cbn [conv].
+  match goal with |- (let '(ms, st') := ?g ch ?ks st in _) = _ =>
+    assert (H : forall l keys s, g l keys s = conv_list pname (child_prefix k (List.length ch) name) l keys s) end.
+  { induction l as [|x r IH]; intros keys s; simpl; [reflexivity|].
+    destruct (conv pname x _ s) as [m st1]. rewrite IH. reflexivity. }
+  rewrite H. reflexivity.
+Qed.
+
+(** get_parameter_index *)
+Lemma get_index_params id name st :
+  params (snd (get_index pname id name st)) = add1 (params st) id /\
+  fst (get_index pname id name st) = idx (add1 (params st) id) id.
+Proof.
+  unfold get_index, add1, idx. destruct (find_id id (params st)) as [i|] eqn:E.
+  - rewrite E. destruct (_ && _); simpl; auto.
+  - simpl. rewrite (find_id_app_new _ _ E). auto.
+Qed.
+
+Lemma get_index_Inv id name st : Inv st -> Inv (snd (get_index pname id name st)).
+Proof.
+  intros [Hn Hl]. unfold get_index. destruct (find_id id (params st)) as [i|] eqn:E.
+  - destruct (String.eqb _ _ && negb (smem _ (names st))) eqn:C; simpl; [|split; assumption].
+    apply andb_true_iff in C. destruct C as [_ C]. apply negb_true_iff, smem_false in C.
+    split; simpl.
+    + apply set_nth_NoDup; assumption.
+    + rewrite set_nth_length. exact Hl.
+  - simpl. split; simpl.
+    + apply NoDup_snoc; [exact Hn|apply fresh_name_not_in].
+    + rewrite !app_length, Hl. reflexivity.
+Qed.
+
+Lemma idx_ext ps final id : In id ps -> ext ps final -> idx final id = idx ps id.
+Proof.
+  intros Hin [q ->]. unfold idx. destruct (find_id_In _ _ Hin) as [i E].
+  rewrite E, (find_id_app_some _ _ q _ E). reflexivity.
+Qed.
+
+Definition rd (vals : list val) (m : mp) : val := read_map ap m vals.
+Definition sig (final : list nat) (vals : list val) (id : nat) : val := nth (idx final id) vals VErr.
+
+Lemma read_kvs vals : forall keys ms,
+  map kv_of (map (rd vals) (map (fun km : string * mp => MList [MConst (CStr (fst km)); snd km]) (combine keys ms)))
+  = combine keys (map (rd vals) ms).
+Proof.
+  induction keys as [|k keys IH]; intros [|m ms]; simpl; try reflexivity. rewrite IH. reflexivity.
+Qed.
+Lemma read_strs vals : forall keys,
+  map str_of (map (rd vals) (map (fun s => MConst (CStr s)) keys)) = keys.
+Proof. induction keys as [|k keys IH]; simpl; [reflexivity|]. rewrite IH. reflexivity. Qed.
+
+(** what one conversion does: (1) parameters grow by the new distinct ids in first-occurrence order,
+    (2) None is mapped to None and only None, (3) reading the map with ANY later parameter list gives the
+    tree with every prior replaced by the value at its final position, (4) the names invariant is kept *)
+Definition conv_ok (t : pv) : Prop := forall name st m st', conv pname t name st = (m, st') ->
+  params st' = add_new (params st) (sites t) /\
+  is_none_mp m = is_none_pv t /\
+  (forall final vals, ext (params st') final -> rd vals m = subst ap (sig final vals) t) /\
+  (Inv st -> Inv st').
+
+Lemma conv_list_ok : forall l, Forall conv_ok l ->
+  forall pre keys st ms st', conv_list pname pre l keys st = (ms, st') ->
+  params st' = add_new (params st) (flat_map sites l) /\
+  map is_none_mp ms = map is_none_pv l /\
+  (forall final vals, ext (params st') final -> map (rd vals) ms = map (subst ap (sig final vals)) l) /\
+  (Inv st -> Inv st').
+Proof.
+  induction l as [|x r IH]; intros HF pre keys st ms st' H; simpl in H.
+  - inversion H; subst. simpl. spl; auto.
+  - inversion HF as [|? ? Hx Hr]; subst.
+    destruct (conv pname x (pre ++ hd "" keys) st) as [m st1] eqn:E1.
+    destruct (conv_list pname pre r (tl keys) st1) as [ms2 st2] eqn:E2.
+    inversion H; subst.
+    destruct (Hx _ _ _ _ E1) as [A1 [A2 [A3 A4]]].
+    destruct (IH Hr _ _ _ _ _ E2) as [B1 [B2 [B3 B4]]].
+    split; [|split; [|split]].
+    + simpl. rewrite add_new_app, <- A1. exact B1.
+    + simpl. rewrite A2, B2. reflexivity.
+    + intros final vals Hf. simpl. f_equal.
+      * apply A3. eapply ext_trans; [|exact Hf]. rewrite B1. apply add_new_ext.
+      * apply B3, Hf.
+    + auto.
+Qed.
+
+Lemma conv_all_ok : forall t, conv_ok t.
+Proof.
+  induction t as [c|id|k ch IHch] using pv_ind'; intros name st m st' H.
+  - simpl in H. inversion H; subst. simpl. spl; auto.
+  - simpl in H. pose proof (get_index_params id name st) as [G1 G2].
+    pose proof (get_index_Inv id name st) as G3.
+    destruct (get_index pname id name st) as [i st1]. inversion H; subst. simpl in *.
+    split; [exact G1|]. split; [reflexivity|]. split; [|exact G3].
+    intros final vals Hf. unfold rd, sig. simpl. rewrite G2. f_equal. symmetry. apply idx_ext; [|rewrite <- G1; exact Hf].
+    apply add1_In. auto.
+  - rewrite conv_node in H.
+    destruct (conv_list pname (child_prefix k (List.length ch) name) ch (child_keys k (List.length ch)) st)
+      as [ms st2] eqn:E.
+    inversion H; subst.
+    destruct (conv_list_ok ch IHch _ _ _ _ _ E) as [B1 [B2 [B3 B4]]].
+    split; [exact B1|]. split; [destruct k; reflexivity|]. split; [|exact B4].
+    intros final vals Hf. specialize (B3 final vals Hf). unfold rd in *.
+    destruct k as [|keys|dim keys|f nm|nm]; simpl.
+    + f_equal. exact B3.
+    + f_equal. fold (rd vals). rewrite select_map. rewrite select_map.
+      rewrite read_kvs. unfold rd. rewrite B3.
+      f_equal. rewrite <- (map_map is_none_mp negb), <- (map_map is_none_pv negb), B2. reflexivity.
+    + f_equal. fold (rd vals). rewrite read_strs. unfold rd. rewrite B3. reflexivity.
+    + rewrite B3. reflexivity.
+    + rewrite B3. reflexivity.
+Qed.
+
+(** ---- the theorems about one conversion / a conversion sequence ---------------------------------- *)
+Lemma one_param_per_prior_l t name st :
+  params (snd (conv pname t name st)) = add_new (params st) (sites t).
+Proof. destruct (conv pname t name st) as [m st'] eqn:E. apply (conv_all_ok t _ _ _ _ E). Qed.
+
+Lemma names_nodup_l t name st : Inv st -> Inv (snd (conv pname t name st)).
+Proof. destruct (conv pname t name st) as [m st'] eqn:E. apply (conv_all_ok t _ _ _ _ E). Qed.
+
+Lemma read_convert_l t name st final vals :
+  ext (params (snd (conv pname t name st))) final ->
+  read_map ap (fst (conv pname t name st)) vals = subst ap (sig final vals) t.
+Proof. destruct (conv pname t name st) as [m st'] eqn:E. apply (conv_all_ok t _ _ _ _ E). Qed.
+
+(** a sequence of conversions with one Mapper (what Model.__init__ does with four dictionaries) *)
+Fixpoint conv_seq (ts : list (pv * string)) (st : mstate) : list mp * mstate :=
+  match ts with
+  | [] => ([], st)
+  | (t, name) :: r => let '(m, st1) := conv pname t name st in
+                      let '(ms, st2) := conv_seq r st1 in (m :: ms, st2)
+  end.
+
+Lemma conv_seq_ok : forall ts st,
+  params (snd (conv_seq ts st)) = add_new (params st) (flat_map (fun tn => sites (fst tn)) ts) /\
+  (Inv st -> Inv (snd (conv_seq ts st))) /\
+  (forall final vals, ext (params (snd (conv_seq ts st))) final ->
+     map (rd vals) (fst (conv_seq ts st)) = map (fun tn => subst ap (sig final vals) (fst tn)) ts).
+Proof.
+  induction ts as [|[t name] r IH]; intros st; simpl.
+  - spl; auto.
+  - destruct (conv pname t name st) as [m st1] eqn:E1.
+    destruct (conv_all_ok t _ _ _ _ E1) as [A1 [_ [A3 A4]]].
+    destruct (IH st1) as [B1 [B2 B3]]. destruct (conv_seq r st1) as [ms st2]. simpl in *.
+    split; [|split].
+    + rewrite add_new_app, <- A1. exact B1.
+    + auto.
+    + intros final vals Hf. f_equal; [|apply B3, Hf].
+      apply A3. eapply ext_trans; [|exact Hf]. rewrite B1. apply add_new_ext.
+Qed.
+
+(** the initial-guess clause: with the value list g(parameters) the map reads as the tree with every
+    prior replaced by g(prior) *)
+Lemma subst_ext s1 s2 : forall t, (forall id, In id (sites t) -> s1 id = s2 id) -> subst ap s1 t = subst ap s2 t.
+Proof.
+  induction t as [c|id|k ch IH] using pv_ind'; intros H; simpl; [reflexivity|apply H; simpl; auto|].
+  f_equal. apply map_ext_in. intros x Hx. rewrite Forall_forall in IH. apply IH; [exact Hx|].
+  intros id Hid. apply H. simpl. apply in_flat_map. eauto.
+Qed.
+
+Lemma guess_l (g : nat -> val) t name :
+  let '(m, st') := conv pname t name st0 in
+  read_map ap m (map g (params st')) = subst ap g t.
+Proof.
+  destruct (conv pname t name st0) as [m st'] eqn:E.
+  destruct (conv_all_ok t _ _ _ _ E) as [A1 [_ [A3 _]]].
+  fold (rd (map g (params st')) m). rewrite (A3 (params st') _ (ext_refl _)).
+  apply subst_ext. intros id Hid. unfold sig. apply nth_idx_map.
+  rewrite A1. apply add_new_In. auto.
+Qed.
+End Conv.
+
+(** ================================================================================================
+    4. Model.__init__: four conversions with one Mapper *)
+
+Lemma model_init_ok pname s th op mo :
+  let m := model_init pname s th op mo in
+  let sd := dict_pv (fun x => x) (scat_params s) in
+  params (m_st m) = add_new [] (sites sd ++ sites th ++ sites op ++ sites mo) /\
+  Inv (m_st m) /\
+  forall ap vals, let sg := sig (params (m_st m)) vals in
+    read_map ap (m_scat m) vals = subst ap sg sd /\
+    read_map ap (m_theory m) vals = subst ap sg th /\
+    read_map ap (m_optics m) vals = subst ap sg op /\
+    read_map ap (m_model m) vals = subst ap sg mo.
+Proof.
+  unfold model_init.
+  destruct (conv pname (dict_pv (fun x => x) (scat_params s)) "" st0) as [ms st1] eqn:E1.
+  destruct (conv pname th "" st1) as [mt st2] eqn:E2.
+  destruct (conv pname op "" st2) as [mop st3] eqn:E3.
+  destruct (conv pname mo "" st3) as [mm st4] eqn:E4.
+  cbn [m_st m_scat m_theory m_optics m_model].
+  split; [|split].
+  - rewrite (proj1 (conv_all_ok pname (fun _ _ => VErr) _ _ _ _ _ E4)),
+            (proj1 (conv_all_ok pname (fun _ _ => VErr) _ _ _ _ _ E3)),
+            (proj1 (conv_all_ok pname (fun _ _ => VErr) _ _ _ _ _ E2)),
+            (proj1 (conv_all_ok pname (fun _ _ => VErr) _ _ _ _ _ E1)).
+    rewrite !add_new_app. reflexivity.
+  - apply (conv_all_ok pname (fun _ _ => VErr) _ _ _ _ _ E4).
+    apply (conv_all_ok pname (fun _ _ => VErr) _ _ _ _ _ E3).
+    apply (conv_all_ok pname (fun _ _ => VErr) _ _ _ _ _ E2).
+    apply (conv_all_ok pname (fun _ _ => VErr) _ _ _ _ _ E1). apply Inv_st0.
+  - intros ap vals.
+    destruct (conv_all_ok pname ap _ _ _ _ _ E1) as [A1 [_ [A3 _]]].
+    destruct (conv_all_ok pname ap _ _ _ _ _ E2) as [B1 [_ [B3 _]]].
+    destruct (conv_all_ok pname ap _ _ _ _ _ E3) as [C1 [_ [C3 _]]].
+    destruct (conv_all_ok pname ap _ _ _ _ _ E4) as [D1 [_ [D3 _]]].
+    assert (X34 : ext (params st3) (params st4)) by (rewrite D1; apply add_new_ext).
+    assert (X23 : ext (params st2) (params st3)) by (rewrite C1; apply add_new_ext).
+    assert (X12 : ext (params st1) (params st2)) by (rewrite B1; apply add_new_ext).
+    unfold rd in *. spl.
+    + apply A3. eapply ext_trans; [exact X12|]. eapply ext_trans; [exact X23|exact X34].
+    + apply B3. eapply ext_trans; [exact X23|exact X34].
+    + apply C3, X34.
+    + apply D3, ext_refl.
+Qed.
+
+(** the value at position i of the value list is the one every site of the i-th parameter's prior gets *)
+Lemma sig_at_param ps vals i : NoDup ps -> i < List.length ps -> sig ps vals (nth i ps 0) = nth i vals VErr.
+Proof. intros Hn Hi. unfold sig. rewrite idx_nth by assumption. reflexivity. Qed.
+
+(** ================================================================================================
+    5. name-keyed values = ordered values *)
+
+Lemma lookup_some_in {A} : forall (d : list (string * A)) k x, lookup k d = Some x -> In (k, x) d.
+Proof.
+  induction d as [|[k' v] r IH]; simpl; intros k x H; [discriminate|].
+  destruct (lookup k r) as [y|] eqn:E.
+  - inversion H; subst. right. apply IH, E.
+  - destruct (String.eqb k k') eqn:Ek; [|discriminate]. apply String.eqb_eq in Ek. inversion H; subst. auto.
+Qed.
+Lemma lookup_In {A} : forall (d : list (string * A)) k v, NoDup (map fst d) -> In (k, v) d -> lookup k d = Some v.
+Proof.
+  induction d as [|[k' v'] r IH]; simpl; intros k v Hn Hin; [contradiction|].
+  inversion Hn; subst. destruct Hin as [Hin|Hin].
+  - inversion Hin; subst. destruct (lookup k r) as [y|] eqn:E.
+    + exfalso. apply H1. apply lookup_some_in in E. apply (in_map fst) in E. exact E.
+    + rewrite String.eqb_refl. reflexivity.
+  - rewrite (IH k v H2 Hin). reflexivity.
+Qed.
+
+Lemma dict_as_list_l (d : list (string * val)) : NoDup (map fst d) -> forall nms vals,
+  List.length vals = List.length nms -> incl (combine nms vals) d ->
+  map (fun n => match lookup n d with Some v => v | None => VErr end) nms = vals.
+Proof.
+  intros Hd. induction nms as [|n ns IH]; intros [|v vs] Hl Hi; simpl in *; try discriminate; [reflexivity|].
+  rewrite (lookup_In d n v Hd) by (apply Hi; left; reflexivity).
+  f_equal. apply IH; [lia|]. intros x Hx. apply Hi. right. exact Hx.
+Qed.
+
+Lemma combine_fst {A B} : forall (a : list A) (b : list B), List.length b = List.length a -> map fst (combine a b) = a.
+Proof. induction a as [|x a IH]; intros [|y b] H; simpl in *; try discriminate; [reflexivity|]. rewrite IH by lia. reflexivity. Qed.
+
+Lemma dict_vs_list_l m d vals :
+  Inv (m_st m) -> List.length vals = List.length (names (m_st m)) ->
+  Permutation d (combine (names (m_st m)) vals) ->
+  pars_of_dict m d = vals.
+Proof.
+  intros [Hn _] Hl Hp. unfold pars_of_dict. apply dict_as_list_l.
+  - apply (Permutation_map fst) in Hp. rewrite (combine_fst _ _ Hl) in Hp.
+    apply Permutation_sym in Hp. apply (Permutation_NoDup Hp Hn).
+  - exact Hl.
+  - intros x Hx. apply Permutation_sym in Hp. apply (Permutation_in _ Hp Hx).
+Qed.
+
+(** ================================================================================================
+    6. ties: edit_map_indices, deletion of the duplicates *)
+
+Lemma nmem_In i l : nmem i l = true <-> In i l.
+Proof.
+  unfold nmem. rewrite existsb_exists. split.
+  - intros [x [Hx He]]. apply Nat.eqb_eq in He. subst. exact Hx.
+  - intros H. exists i. split; [exact H|apply Nat.eqb_refl].
+Qed.
+Lemma nmem_false i l : nmem i l = false <-> ~ In i l.
+Proof. rewrite <- nmem_In. destruct (nmem i l); split; congruence. Qed.
+
+(** strictly ascending, all elements >= lo *)
+Fixpoint asc (lo : nat) (J : list nat) : Prop :=
+  match J with [] => True | j :: r => lo <= j /\ asc (S j) r end.
+Lemma asc_ge : forall J lo x, asc lo J -> In x J -> lo <= x.
+Proof.
+  induction J as [|j r IH]; simpl; intros lo x H Hx; [contradiction|].
+  destruct H as [H1 H2]. destruct Hx as [Hx|Hx]; [lia|]. specialize (IH _ _ H2 Hx). lia.
+Qed.
+Lemma asc_NoDup : forall J lo, asc lo J -> NoDup J.
+Proof.
+  induction J as [|j r IH]; simpl; intros lo H; [constructor|]. destruct H as [H1 H2].
+  constructor; [|apply (IH _ H2)]. intros Hx. pose proof (asc_ge _ _ _ H2 Hx). lia.
+Qed.
+
+(** number of elements of J in [a, b) *)
+Definition inrange (a b j : nat) : bool := Nat.leb a j && Nat.ltb j b.
+Definition cnt (J : list nat) (a b : nat) : nat := List.length (filter (inrange a b) J).
+
+Lemma inrange_true a b j : inrange a b j = true <-> a <= j < b.
+Proof. unfold inrange. rewrite andb_true_iff, Nat.leb_le, Nat.ltb_lt. tauto. Qed.
+Lemma inrange_false a b j : inrange a b j = false <-> ~ (a <= j < b).
+Proof. rewrite <- inrange_true. destruct (inrange a b j); split; congruence. Qed.
+Lemma inrange_eq a b a' b' j : (a <= j < b <-> a' <= j < b') -> inrange a b j = inrange a' b' j.
+Proof.
+  intros H. destruct (inrange a' b' j) eqn:E.
+  - apply inrange_true. apply H. apply inrange_true, E.
+  - apply inrange_false. intros X. apply H in X. apply inrange_true in X. congruence.
+Qed.
+Lemma cnt_cons j r a b : cnt (j :: r) a b = (if inrange a b j then 1 else 0) + cnt r a b.
+Proof. unfold cnt. cbn [filter]. destruct (inrange a b j); reflexivity. Qed.
+Lemma cnt_nil a b : cnt [] a b = 0. Proof. reflexivity. Qed.
+
+Lemma count_lt_cnt i J : count_lt i J = cnt J 0 i.
+Proof. unfold count_lt, cnt, inrange. reflexivity. Qed.
+
+Lemma cnt_step_notin : forall J k b, ~ In k J -> cnt J k b = cnt J (S k) b.
+Proof.
+  induction J as [|j r IH]; intros k b H; [reflexivity|].
+  assert (Hj : j <> k) by (intros E; apply H; left; exact E).
+  assert (Hr : ~ In k r) by (intros E; apply H; right; exact E).
+  rewrite !cnt_cons, (IH k b Hr). f_equal. rewrite (inrange_eq k b (S k) b j) by lia. reflexivity.
+Qed.
+Lemma cnt_step_in : forall J k b, NoDup J -> In k J -> k < b -> cnt J k b = S (cnt J (S k) b).
+Proof.
+  induction J as [|j r IH]; intros k b Hn Hin Hb; [contradiction|].
+  inversion Hn; subst. rewrite !cnt_cons. destruct (Nat.eq_dec j k) as [->|Hj].
+  - rewrite (cnt_step_notin r k b H1).
+    assert (C1 : inrange k b k = true) by (apply inrange_true; lia).
+    assert (C2 : inrange (S k) b k = false) by (apply inrange_false; lia).
+    rewrite C1, C2. reflexivity.
+  - destruct Hin as [Hin|Hin]; [contradiction|]. rewrite (IH k b H2 Hin Hb).
+    rewrite (inrange_eq k b (S k) b j) by lia. lia.
+Qed.
+Lemma cnt_le J a b : NoDup J -> cnt J a b <= b - a.
+Proof.
+  intros Hn. unfold cnt.
+  assert (Hi : incl (filter (inrange a b) J) (seq a (b - a))).
+  { intros x Hx. apply filter_In in Hx. destruct Hx as [_ Hc]. apply inrange_true in Hc. apply in_seq. lia. }
+  pose proof (NoDup_incl_length (NoDup_filter _ Hn) Hi) as Hl. rewrite seq_length in Hl. exact Hl.
+Qed.
+Lemma cnt_all J a b : (forall j, In j J -> a <= j < b) -> cnt J a b = List.length J.
+Proof.
+  induction J as [|j r IH]; intros H; [reflexivity|]. rewrite cnt_cons.
+  assert (C : inrange a b j = true) by (apply inrange_true, H; left; reflexivity).
+  rewrite C, IH; [reflexivity|]. intros x Hx. apply H. right. exact Hx.
+Qed.
+Lemma cnt_none J a b : (forall j, In j J -> b <= j) -> cnt J a b = 0.
+Proof.
+  induction J as [|j r IH]; intros H; [reflexivity|]. rewrite cnt_cons.
+  assert (C : inrange a b j = false).
+  { apply inrange_false. specialize (H j (or_introl eq_refl)). lia. }
+  rewrite C, IH; [reflexivity|]. intros x Hx. apply H. right. exact Hx.
+Qed.
+
+Lemma cnt_empty J a b : b <= a -> cnt J a b = 0.
+Proof.
+  intros H. induction J as [|j r IH]; [reflexivity|]. rewrite cnt_cons, IH.
+  assert (C : inrange a b j = false) by (apply inrange_false; lia). rewrite C. reflexivity.
+Qed.
+
+(** the element at position i of the original list sits at position i - #(deleted positions below i) *)
+Lemma nth_drop_pos {A} (d : A) J : NoDup J -> forall l k i, ~ In (k + i) J ->
+  nth (i - cnt J k (k + i)) (drop_pos J k l) d = nth i l d.
+Proof.
+  intros Hn. induction l as [|x t IH]; intros k i Hi.
+  - simpl. destruct (i - cnt J k (k + i)); destruct i; reflexivity.
+  - destruct i as [|i'].
+    + simpl. rewrite Nat.add_0_r in Hi. apply nmem_false in Hi. rewrite Hi. reflexivity.
+    + replace (k + S i') with (S k + i') in * by lia. simpl drop_pos. destruct (nmem k J) eqn:E.
+      * apply nmem_In in E. rewrite (cnt_step_in J k (S k + i') Hn E) by lia.
+        simpl. apply IH. exact Hi.
+      * apply nmem_false in E. rewrite (cnt_step_notin J k _ E).
+        pose proof (cnt_le J (S k) (S k + i') Hn) as Hc.
+        replace (S i' - cnt J (S k) (S k + i')) with (S (i' - cnt J (S k) (S k + i'))) by lia.
+        simpl. apply IH. exact Hi.
+Qed.
+
+Lemma drop_pos_length {A} J : NoDup J -> forall (l : list A) k,
+  List.length (drop_pos J k l) + cnt J k (k + List.length l) = List.length l.
+Proof.
+  intros Hn. induction l as [|x t IH]; intros k; simpl.
+  - rewrite Nat.add_0_r. rewrite cnt_empty; [reflexivity|lia].
+  - replace (k + S (List.length t)) with (S k + List.length t) by lia. destruct (nmem k J) eqn:E.
+    + apply nmem_In in E. rewrite (cnt_step_in J k _ Hn E) by lia. specialize (IH (S k)). cbn [Nat.add] in *. lia.
+    + apply nmem_false in E. rewrite (cnt_step_notin J k _ E). specialize (IH (S k)). cbn [Nat.add List.length] in *. lia.
+Qed.
+
+Lemma drop_pos_In {A} J : forall (l : list A) k x, In x (drop_pos J k l) -> In x l.
+Proof.
+  induction l as [|y t IH]; intros k x H; simpl in *; [contradiction|].
+  destruct (nmem k J); [right; eapply IH; exact H|]. destruct H as [H|H]; [auto|right; eapply IH; exact H].
+Qed.
+Lemma drop_pos_NoDup {A} J : forall (l : list A) k, NoDup l -> NoDup (drop_pos J k l).
+Proof.
+  induction l as [|y t IH]; intros k H; simpl; [constructor|]. inversion H; subst.
+  destruct (nmem k J); [apply IH; assumption|]. constructor; [|apply IH; assumption].
+  intros Hx. apply H2. eapply drop_pos_In. exact Hx.
+Qed.
+
+(** python's "for index in indices[:0:-1]: del l[index]" deletes exactly the positions indices[1:] *)
+Lemma drop_pos_skip {A} a J : forall (l : list A) k, a < k -> drop_pos (a :: J) k l = drop_pos J k l.
+Proof.
+  induction l as [|x t IH]; intros k H; simpl; [reflexivity|].
+  assert (E : Nat.eqb k a = false) by (apply Nat.eqb_neq; lia).
+  unfold nmem at 1. simpl. rewrite E. simpl. fold (nmem k J).
+  rewrite IH by lia. reflexivity.
+Qed.
+Lemma del_drop {A} J : forall (l : list A) k j, (forall x, In x J -> k + j < x) ->
+  del_nth j (drop_pos J k l) = drop_pos (k + j :: J) k l.
+Proof.
+  induction l as [|x t IH]; intros k j H.
+  - simpl. destruct j; reflexivity.
+  - assert (Ek : nmem k J = false).
+    { apply nmem_false. intros Hk. specialize (H k Hk). lia. }
+    simpl drop_pos at 1. rewrite Ek. destruct j as [|j'].
+    + simpl. rewrite Nat.add_0_r. unfold nmem at 1. simpl. rewrite Nat.eqb_refl. simpl.
+      rewrite drop_pos_skip by lia. reflexivity.
+    + simpl del_nth. simpl drop_pos. unfold nmem at 1. simpl.
+      assert (E : Nat.eqb k (k + S j') = false) by (apply Nat.eqb_neq; lia).
+      rewrite E. simpl. fold (nmem k J). rewrite Ek. f_equal.
+      replace (k + S j') with (S k + j') by lia. apply IH. intros y Hy. specialize (H y Hy). lia.
+Qed.
+Lemma del_desc_drop {A} : forall J lo (l : list A), asc lo J ->
+  fold_left (fun acc i => del_nth i acc) (List.rev J) l = drop_pos J 0 l.
+Proof.
+  induction J as [|j r IH]; intros lo l H; simpl.
+  - clear H. generalize 0. induction l as [|x t IHl]; intros k; simpl; [reflexivity|]. rewrite <- IHl. reflexivity.
+  - destruct H as [H1 H2]. rewrite fold_left_app. simpl. rewrite (IH (S j) l H2).
+    rewrite (del_drop r l 0 j); [reflexivity|]. intros x Hx. pose proof (asc_ge _ _ _ H2 Hx). lia.
+Qed.
+Lemma del_desc_is_drop {A} i0 J (l : list A) : asc (S i0) J -> del_desc (i0 :: J) l = drop_pos J 0 l.
+Proof. intros H. unfold del_desc. simpl. eapply del_desc_drop. exact H. Qed.
+
+(** edit_map_indices' arithmetic: a tied index goes to the smallest tied index, any other index to its
+    position after the deletion *)
+Lemma edit_idx_tied i0 J old : In old (i0 :: J) -> edit_idx (i0 :: J) old = i0.
+Proof. intros H. unfold edit_idx. apply nmem_In in H. rewrite H. reflexivity. Qed.
+Lemma edit_idx_other i0 J old : asc (S i0) J -> ~ In old (i0 :: J) ->
+  edit_idx (i0 :: J) old = old - count_lt old J.
+Proof.
+  intros Ha H. unfold edit_idx. pose proof H as H'. apply nmem_false in H'. rewrite H'. simpl hd.
+  destruct (Nat.ltb_spec old i0) as [Hlt|Hge].
+  - rewrite count_lt_cnt, cnt_none; [lia|]. intros j Hj. pose proof (asc_ge _ _ _ Ha Hj). lia.
+  - assert (old <> i0) by (intros E; apply H; left; auto).
+    unfold count_lt. simpl. destruct (Nat.ltb_spec i0 old); [|lia]. simpl. lia.
+Qed.
+
+(** induction principle for maps *)
+Section MpInd.
+Variable P : mp -> Prop.
+Hypothesis H1 : forall c, P (MConst c).
+Hypothesis H2 : forall f, P (MFn f).
+Hypothesis H3 : forall i, P (MPar i).
+Hypothesis H4 : forall l, Forall P l -> P (MList l).
+Hypothesis H5 : forall h l, Forall P l -> P (MCall h l).
+Fixpoint mp_ind' (m : mp) : P m :=
+  let go := fix go l : Forall P l :=
+              match l with [] => Forall_nil _ | x :: r => Forall_cons _ (mp_ind' x) (go r) end in
+  match m with
+  | MConst c => H1 c | MFn f => H2 f | MPar i => H3 i
+  | MList l => H4 l (go l) | MCall h l => H5 h l (go l)
+  end.
+End MpInd.
+
+Lemma tie_semantics_l ap i0 J vals : asc (S i0) J ->
+  (forall j, In j J -> nth j vals VErr = nth i0 vals VErr) ->
+  forall m, read_map ap (edit_map (i0 :: J) m) (drop_pos J 0 vals) = read_map ap m vals.
+Proof.
+  intros Ha Hv. pose proof (asc_NoDup _ _ Ha) as Hn.
+  assert (Hi0 : ~ In i0 J) by (intros Hx; pose proof (asc_ge _ _ _ Ha Hx); lia).
+  assert (K0 : nth i0 (drop_pos J 0 vals) VErr = nth i0 vals VErr).
+  { rewrite <- (nth_drop_pos VErr J Hn vals 0 i0 Hi0). simpl. f_equal.
+    rewrite cnt_none; [lia|]. intros j Hj. pose proof (asc_ge _ _ _ Ha Hj). lia. }
+  induction m as [c|f|i|l IH|h l IH] using mp_ind'; simpl; try reflexivity.
+  - destruct (in_dec Nat.eq_dec i (i0 :: J)) as [Hin|Hout].
+    + rewrite (edit_idx_tied i0 J i Hin), K0. destruct Hin as [<-|Hin]; [reflexivity|]. symmetry. apply Hv, Hin.
+    + rewrite (edit_idx_other i0 J i Ha Hout), count_lt_cnt.
+      apply (nth_drop_pos VErr J Hn vals 0 i). intros Hx. apply Hout. right. exact Hx.
+  - f_equal. rewrite map_map. apply map_ext_in. intros x Hx. rewrite Forall_forall in IH. apply IH, Hx.
+  - f_equal. rewrite map_map. apply map_ext_in. intros x Hx. rewrite Forall_forall in IH. apply IH, Hx.
+Qed.
+
+Lemma tie_removes_duplicates_l {A} i0 J (l : list A) : asc (S i0) J -> (forall j, In j J -> j < List.length l) ->
+  del_desc (i0 :: J) l = drop_pos J 0 l /\
+  List.length (del_desc (i0 :: J) l) + List.length J = List.length l.
+Proof.
+  intros Ha Hb. rewrite (del_desc_is_drop _ _ _ Ha). split; [reflexivity|].
+  pose proof (drop_pos_length J (asc_NoDup _ _ Ha) l 0) as H. simpl in H.
+  rewrite cnt_all in H; [exact H|]. intros j Hj. split; [lia|apply Hb, Hj].
+Qed.
+
+(** ---- Model.add_tie as a whole -------------------------------------------------------------------- *)
+Lemma insert_sorted_In x : forall l y, In y (insert_sorted x l) <-> y = x \/ In y l.
+Proof.
+  induction l as [|z t IH]; intros y; simpl; [intuition|].
+  destruct (Nat.leb x z); simpl; [intuition|]. rewrite IH. intuition.
+Qed.
+Lemma insert_sorted_length x : forall l, List.length (insert_sorted x l) = S (List.length l).
+Proof. induction l as [|z t IH]; simpl; [reflexivity|]. destruct (Nat.leb x z); simpl; [reflexivity|]. rewrite IH. reflexivity. Qed.
+Lemma insert_sorted_asc x : forall l lo, asc lo l -> lo <= x -> ~ In x l -> asc lo (insert_sorted x l).
+Proof.
+  induction l as [|z t IH]; intros lo Ha Hlo Hx; simpl; [auto|].
+  destruct Ha as [H1 H2]. destruct (Nat.leb_spec x z).
+  - simpl. assert (x <> z) by (intros E; apply Hx; left; auto). repeat split; [lia|lia|exact H2].
+  - simpl. split; [exact H1|]. apply IH; [exact H2|lia|]. intros E. apply Hx. right. exact E.
+Qed.
+Lemma sort_nat_In l : forall y, In y (sort_nat l) <-> In y l.
+Proof. induction l as [|x r IH]; intros y; simpl; [tauto|]. rewrite insert_sorted_In, IH. intuition. Qed.
+Lemma sort_nat_length l : List.length (sort_nat l) = List.length l.
+Proof. induction l as [|x r IH]; simpl; [reflexivity|]. rewrite insert_sorted_length, IH. reflexivity. Qed.
+Lemma sort_nat_asc l : NoDup l -> asc 0 (sort_nat l).
+Proof.
+  induction l as [|x r IH]; intros H; simpl; [exact I|]. inversion H; subst.
+  apply insert_sorted_asc; [apply IH; assumption|lia|]. rewrite sort_nat_In. assumption.
+Qed.
+
+Lemma index_of_some s : forall l i, index_of s l = Some i -> i < List.length l /\ nth i l "" = s.
+Proof.
+  induction l as [|x t IH]; simpl; intros i H; [discriminate|].
+  destruct (String.eqb x s) eqn:E.
+  - inversion H; subst. apply String.eqb_eq in E. split; [lia|exact E].
+  - destruct (index_of s t) as [n|]; simpl in H; [|discriminate]. inversion H; subst.
+    destruct (IH n eq_refl). split; [lia|assumption].
+Qed.
+
+Lemma tie_indices_spec pcls st c0 : forall tie idxs, tie_indices pcls st c0 tie = Some idxs ->
+  List.length idxs = List.length tie /\
+  (forall j, In j idxs -> exists p, In p tie /\ index_of p (names st) = Some j) /\
+  (NoDup tie -> NoDup idxs).
+Proof.
+  induction tie as [|p r IH]; intros idxs H; simpl in H.
+  - inversion H; subst. repeat split; [intros j []|constructor].
+  - destruct (index_of p (names st)) as [i|] eqn:E; [|discriminate].
+    destruct (Z.eqb _ c0); [|discriminate].
+    destruct (tie_indices pcls st c0 r) as [is|] eqn:E2; simpl in H; [|discriminate].
+    inversion H; subst. destruct (IH is eq_refl) as [A [B C]]. split; [simpl; lia|]. split.
+    + intros j [Hj|Hj]; [subst; exists p; simpl; auto|].
+      destruct (B j Hj) as [q [Hq1 Hq2]]. exists q. simpl. auto.
+    + intros Hn. inversion Hn; subst. constructor; [|apply C; assumption].
+      intros Hi. destruct (B i Hi) as [q [Hq1 Hq2]].
+      destruct (index_of_some _ _ _ E) as [_ X1]. destruct (index_of_some _ _ _ Hq2) as [_ X2].
+      apply H2. rewrite <- X1, X2. exact Hq1.
+Qed.
+
+Lemma add_tie_ok pcls tie new_name m m' :
+  Inv (m_st m) -> NoDup tie -> add_tie pcls tie new_name m = Some m' ->
+  exists i0 J,
+    asc (S i0) J /\ S (List.length J) = List.length tie /\
+    (forall j, In j (i0 :: J) -> exists p, In p tie /\ index_of p (names (m_st m)) = Some j) /\
+    params (m_st m') = drop_pos J 0 (params (m_st m)) /\
+    names (m_st m') = (match new_name with Some n => set_nth i0 n | None => fun l => l end)
+                        (drop_pos J 0 (names (m_st m))) /\
+    List.length (params (m_st m')) + List.length J = List.length (params (m_st m)) /\
+    List.length (names (m_st m')) = List.length (params (m_st m')) /\
+    (match new_name with
+     | None => True
+     | Some n => ~ In n (drop_pos J 0 (names (m_st m)))
+     end -> NoDup (names (m_st m'))) /\
+    m_dummy m' = m_dummy m /\
+    forall ap vals, (forall j, In j J -> nth j vals VErr = nth i0 vals VErr) ->
+      let vals' := drop_pos J 0 vals in
+      read_map ap (m_scat m') vals' = read_map ap (m_scat m) vals /\
+      read_map ap (m_theory m') vals' = read_map ap (m_theory m) vals /\
+      read_map ap (m_optics m') vals' = read_map ap (m_optics m) vals /\
+      read_map ap (m_model m') vals' = read_map ap (m_model m) vals.
+Proof.
+  intros [Hnd Hlen] Htie H. unfold add_tie in H.
+  destruct tie as [|first rest]; [discriminate|].
+  destruct (index_of first (names (m_st m))) as [i1|] eqn:E1; [|discriminate].
+  destruct (tie_indices pcls (m_st m) _ (first :: rest)) as [idxs|] eqn:E2; [|discriminate].
+  destruct (tie_indices_spec _ _ _ _ _ E2) as [L [B C]]. specialize (C Htie).
+  pose proof (sort_nat_asc idxs C) as Ha. pose proof (sort_nat_length idxs) as Hl.
+  destruct (sort_nat idxs) as [|i0 J] eqn:ES; [simpl in *; lia|].
+  inversion H; subst; clear H. cbn [m_st m_scat m_theory m_optics m_model m_dummy params names].
+  simpl in Ha. destruct Ha as [_ Ha].
+  assert (Hb : forall j, In j (i0 :: J) -> exists p, In p (first :: rest) /\ index_of p (names (m_st m)) = Some j).
+  { intros j Hj. apply B. apply sort_nat_In. rewrite ES. exact Hj. }
+  assert (HbJ : forall j, In j J -> j < List.length (params (m_st m))).
+  { intros j Hj. destruct (Hb j (or_intror Hj)) as [p [_ Hp]]. apply index_of_some in Hp. lia. }
+  exists i0, J. rewrite !(del_desc_is_drop _ _ _ Ha).
+  pose proof (fun A => @drop_pos_length A J (asc_NoDup _ _ Ha)) as DL.
+  assert (LP : List.length (drop_pos J 0 (params (m_st m))) + List.length J = List.length (params (m_st m))).
+  { specialize (DL _ (params (m_st m)) 0). simpl in DL. rewrite cnt_all in DL; [exact DL|].
+    intros j Hj. split; [lia|apply HbJ, Hj]. }
+  assert (LN : List.length (drop_pos J 0 (names (m_st m))) + List.length J = List.length (names (m_st m))).
+  { specialize (DL _ (names (m_st m)) 0). simpl in DL. rewrite cnt_all in DL; [exact DL|].
+    intros j Hj. split; [lia|rewrite Hlen; apply HbJ, Hj]. }
+  split; [exact Ha|]. split; [simpl in *; lia|]. split; [exact Hb|]. split; [reflexivity|].
+  split; [destruct new_name; reflexivity|]. split; [exact LP|]. split.
+  { destruct new_name; [rewrite set_nth_length|]; lia. }
+  split.
+  { destruct new_name as [n|]; intros Hfree.
+    - apply set_nth_NoDup; [apply drop_pos_NoDup, Hnd|exact Hfree].
+    - apply drop_pos_NoDup, Hnd. }
+  split; [reflexivity|].
+  intros ap vals Hv. cbv zeta. repeat split; apply tie_semantics_l; assumption.
+Qed.
+
+(** ================================================================================================
+    7. scatterer parameters: "i:key" flattening, from_parameters *)
+
+Lemma split_colon_uint : forall d r,
+  split_colon (NilEmpty.string_of_uint d ++ String ":" r) = Some (NilEmpty.string_of_uint d, r).
+Proof. induction d; intros r; simpl; try rewrite IHd; reflexivity. Qed.
+Lemma split_colon_key i key : split_colon (nstr i ++ ":" ++ key) = Some (nstr i, key).
+Proof. unfold nstr. apply split_colon_uint. Qed.
+
+Definition vmap {A B} (g : A -> B) (l : list (string * A)) : list (string * B) :=
+  map (fun kv => (fst kv, g (snd kv))) l.
+Lemma vmap_fst {A B} (g : A -> B) l : map fst (vmap g l) = map fst l.
+Proof. unfold vmap. rewrite map_map. reflexivity. Qed.
+Lemma vmap_prefix {A B} (g : A -> B) i l : vmap g (prefix_keys i l) = prefix_keys i (vmap g l).
+Proof. unfold vmap, prefix_keys. rewrite !map_map. reflexivity. Qed.
+Lemma vmap_app {A B} (g : A -> B) a b : vmap g (a ++ b) = vmap g a ++ vmap g b.
+Proof. apply map_app. Qed.
+
+Lemma collect_app {A} i (a b : list (string * A)) : collect i (a ++ b) = collect i a ++ collect i b.
+Proof. unfold collect. apply flat_map_app. Qed.
+Lemma collect_prefix_same {A} i : forall l : list (string * A), collect i (prefix_keys i l) = l.
+Proof.
+  induction l as [|[k v] r IH]; [reflexivity|].
+  unfold collect, prefix_keys in *. cbn [map flat_map fst snd]. rewrite split_colon_key, String.eqb_refl, IH.
+  reflexivity.
+Qed.
+Lemma collect_prefix_other {A} i j : i <> j -> forall l : list (string * A), collect i (prefix_keys j l) = [].
+Proof.
+  intros Hij. induction l as [|[k v] r IH]; [reflexivity|].
+  unfold collect, prefix_keys in *. cbn [map flat_map fst snd]. rewrite split_colon_key.
+  destruct (String.eqb (nstr j) (nstr i)) eqn:E.
+  - apply String.eqb_eq, nstr_inj in E. congruence.
+  - rewrite IH. reflexivity.
+Qed.
+
+(** Scatterers._parameters written as a separate function *)
+Fixpoint pgo {A} (i : nat) (l : list (scat A)) : list (string * A) :=
+  match l with [] => [] | x :: r => prefix_keys i (scat_params x) ++ pgo (S i) r end.
+Lemma scat_params_group {A} cls (ms : list (scat A)) : scat_params (SGroup cls ms) = pgo 0 ms.
+Proof.
+  cbn [scat_params]. generalize 0. induction ms as [|x r IH]; intros k; [reflexivity|].
+  cbn [pgo]. rewrite <- IH. reflexivity.
+Qed.
+
+Lemma collect_pgo_lt {A B} (g : A -> B) : forall l k i, i < k -> collect i (vmap g (pgo k l)) = [].
+Proof.
+  induction l as [|y r IH]; intros k i H; [reflexivity|].
+  cbn [pgo]. rewrite vmap_app, collect_app, vmap_prefix, collect_prefix_other by lia.
+  rewrite IH by lia. reflexivity.
+Qed.
+(** flatten / unflatten: the entries "i:key" of a collection's parameters are exactly member i's parameters *)
+Lemma collect_pgo {A B} (g : A -> B) : forall l k j x, nth_error l j = Some x ->
+  collect (k + j) (vmap g (pgo k l)) = vmap g (scat_params x).
+Proof.
+  induction l as [|y r IH]; intros k j x H; [destruct j; discriminate|].
+  cbn [pgo]. rewrite vmap_app, collect_app, vmap_prefix. destruct j as [|j'].
+  - inversion H; subst. rewrite Nat.add_0_r, collect_prefix_same, collect_pgo_lt by lia. apply app_nil_r.
+  - simpl in H. rewrite collect_prefix_other by lia. replace (k + S j') with (S k + j') by lia.
+    rewrite (IH (S k) j' x H). reflexivity.
+Qed.
+
+(** induction principle for scatterer trees *)
+Section ScatInd.
+Context {A : Type}.
+Variable P : scat A -> Prop.
+Hypothesis H1 : forall cls pars, P (SLeaf cls pars).
+Hypothesis H2 : forall cls ms, Forall P ms -> P (SGroup cls ms).
+Hypothesis H3 : forall sp tr rot, P sp -> P (SRigid sp tr rot).
+Fixpoint scat_ind' (s : scat A) : P s :=
+  match s with
+  | SLeaf cls pars => H1 cls pars
+  | SGroup cls ms => H2 cls ms ((fix go l : Forall P l :=
+                                   match l with [] => Forall_nil _ | x :: r => Forall_cons _ (scat_ind' x) (go r) end) ms)
+  | SRigid sp tr rot => H3 sp tr rot (scat_ind' sp)
+  end.
+End ScatInd.
+
+(** value map over a scatterer tree *)
+Fixpoint smap {A B} (f : A -> B) (s : scat A) : scat B :=
+  match s with
+  | SLeaf c p => SLeaf c (vmap f p)
+  | SGroup c ms => SGroup c (map (smap f) ms)
+  | SRigid sp tr rot => SRigid (smap f sp) (f tr) (f rot)
+  end.
+
+(** simple scatterers with distinct argument names, collections of those; no rigid cluster *)
+Inductive good {A} : scat A -> Prop :=
+| good_leaf cls pars : NoDup (map fst pars) -> good (SLeaf cls pars)
+| good_group cls ms : Forall good ms -> good (SGroup cls ms).
+
+Lemma scat_subst_smap ap sg : forall s, scat_subst ap sg s = smap (subst ap sg) s.
+Proof.
+  induction s as [c p|c ms IH|sp tr rot IH] using scat_ind'; simpl; [reflexivity| |rewrite IH; reflexivity].
+  f_equal. apply map_ext_in. intros x Hx. rewrite Forall_forall in IH. apply IH, Hx.
+Qed.
+Lemma dummy_keep_smap : forall s, dummy_keep s = smap dummy_val s.
+Proof.
+  induction s as [c p|c ms IH|sp tr rot IH] using scat_ind'; simpl; [reflexivity| |rewrite IH; reflexivity].
+  f_equal. apply map_ext_in. intros x Hx. rewrite Forall_forall in IH. apply IH, Hx.
+Qed.
+Lemma dummy_of_smap : forall s, good s -> dummy_of s = smap dummy_val s.
+Proof.
+  induction s as [c p|c ms IH|sp tr rot IH] using scat_ind'; intros Hg; simpl; [reflexivity| |inversion Hg].
+  inversion Hg; subst. f_equal. apply map_ext_in. intros x Hx. rewrite Forall_forall in *. apply IH; auto.
+Qed.
+Lemma scat_params_smap {A B} (g : A -> B) : forall s, scat_params (smap g s) = vmap g (scat_params s).
+Proof.
+  induction s as [c p|c ms IH|sp tr rot IH] using scat_ind'.
+  - reflexivity.
+  - cbn [smap]. rewrite !scat_params_group. generalize 0. induction ms as [|x r IHr]; intros k; [reflexivity|].
+    inversion IH; subst. cbn [map pgo]. rewrite vmap_app, vmap_prefix, H1, (IHr H2). reflexivity.
+  - cbn [smap scat_params]. rewrite IH, vmap_app. reflexivity.
+Qed.
+
+(** from_parameters with a full parameter dictionary puts every value at its key, whatever the template
+    held before (f: the template's values, g: the new values) *)
+Lemma from_parameters_full {A} : forall s : scat A, good s -> forall (f g : A -> val),
+  sc_from (smap f s) (vmap g (scat_params s)) = smap g s.
+Proof.
+  induction s as [c p|c ms IH|sp tr rot IH] using scat_ind'; intros Hg f g; [| |inversion Hg].
+  - inversion Hg; subst. cbn [smap sc_from scat_params]. f_equal.
+    transitivity (map (fun kv : string * A => (fst kv, g (snd kv))) p); [|reflexivity].
+    set (d := vmap g p). unfold vmap. rewrite map_map. subst d.
+    apply map_ext_in. intros kv Hkv. cbn [fst snd].
+    rewrite (lookup_In (vmap g p) (fst kv) (g (snd kv))); [reflexivity|rewrite vmap_fst; assumption|].
+    unfold vmap. apply (in_map (fun kv0 => (fst kv0, g (snd kv0)))) in Hkv. exact Hkv.
+  - inversion Hg; subst. cbn [smap sc_from]. f_equal. rewrite scat_params_group.
+    assert (G : forall r k, Forall (fun x => good x -> forall f g : A -> val,
+                                     sc_from (smap f x) (vmap g (scat_params x)) = smap g x) r ->
+                Forall good r ->
+                (forall j x, nth_error r j = Some x -> collect (k + j) (vmap g (pgo 0 ms)) = vmap g (scat_params x)) ->
+                (fix go (i : nat) (l : list (scat val)) : list (scat val) :=
+                   match l with [] => [] | x :: r => sc_from x (collect i (vmap g (pgo 0 ms))) :: go (S i) r end)
+                  k (map (smap f) r) = map (smap g) r).
+    { induction r as [|x r IHr]; intros k HF HG HC; [reflexivity|].
+      inversion HF; subst. inversion HG; subst. cbn [map]. f_equal.
+      - specialize (HC 0 x eq_refl). rewrite Nat.add_0_r in HC. rewrite HC. apply H2. assumption.
+      - apply IHr; try assumption. intros j y Hj. replace (S k + j) with (k + S j) by lia. apply HC. exact Hj. }
+    apply G; try assumption. intros j x Hj. apply (collect_pgo g ms 0 j x Hj).
+Qed.
+
+Lemma rebuild_id_l : forall s : scat val, good s -> sc_from s (scat_params s) = s.
+Proof.
+  assert (I1 : forall s : scat val, smap (fun v => v) s = s).
+  { induction s as [c p|c ms IH|sp tr rot IH] using scat_ind'; simpl.
+    - f_equal. unfold vmap. rewrite <- (map_id p) at 2. apply map_ext. intros [k v]. reflexivity.
+    - f_equal. rewrite <- (map_id ms) at 2. apply map_ext_in. intros x Hx. rewrite Forall_forall in IH. apply IH, Hx.
+    - rewrite IH. reflexivity. }
+  assert (I2 : forall l : list (string * val), vmap (fun v => v) l = l).
+  { intros l. unfold vmap. rewrite <- (map_id l) at 2. apply map_ext. intros [k v]. reflexivity. }
+  intros s Hg. pose proof (from_parameters_full s Hg (fun v => v) (fun v => v)) as H.
+  rewrite I1, I2 in H. exact H.
+Qed.
+
+(** ---- end to end: Model.scatterer_from_parameters and validate_scatterer --------------------------- *)
+Lemma select_all_true {A} : forall (l : list A) (fl : list bool),
+  List.length fl = List.length l -> Forall (fun b => b = true) fl -> select fl l = l.
+Proof.
+  induction l as [|x t IH]; intros [|b fl] Hl HF; simpl in *; try discriminate; [reflexivity|].
+  inversion HF; subst. rewrite IH by (auto; lia). reflexivity.
+Qed.
+
+Lemma subst_dict ap sg (l : list (string * pv)) :
+  Forall (fun kv => is_none_pv (snd kv) = false) l ->
+  as_dict (subst ap sg (dict_pv (fun x => x) l)) = vmap (subst ap sg) l.
+Proof.
+  intros HF. unfold dict_pv. cbn [subst vwrap as_dict keep_pv]. rewrite select_all_true.
+  - unfold vmap. rewrite !map_map. induction l as [|[k v] r IH]; simpl; [reflexivity|].
+    inversion HF; subst. rewrite IH by assumption. reflexivity.
+  - rewrite combine_length, !map_length. lia.
+  - rewrite map_map. induction HF; simpl; constructor; [rewrite H; reflexivity|assumption].
+Qed.
+
+Definition no_none (s : scat pv) : Prop := Forall (fun kv => is_none_pv (snd kv) = false) (scat_params s).
+
+Lemma scatterer_from_parameters_l pname s th op mo vals :
+  good s -> no_none s ->
+  let m := model_init pname s th op mo in
+  scatterer_from_parameters m vals = scat_subst apply_fn (sig (params (m_st m)) vals) s.
+Proof.
+  intros Hg Hn m. unfold scatterer_from_parameters.
+  destruct (model_init_ok pname s th op mo) as [_ [_ R]]. fold m in R.
+  destruct (R apply_fn vals) as [R1 _]. rewrite R1, (subst_dict _ _ _ Hn).
+  assert (D : m_dummy m = dummy_of s).
+  { unfold m, model_init. repeat match goal with |- context [let '(_, _) := ?c in _] => destruct c end. reflexivity. }
+  rewrite D, (dummy_of_smap s Hg), scat_subst_smap. apply from_parameters_full, Hg.
+Qed.
+
+Lemma guess_scatterer_l pname pguess s :
+  good s -> no_none s ->
+  validate_scatterer pname pguess s = scat_subst apply_fn (fun id => vnum (pguess id)) s.
+Proof.
+  intros Hg Hn. unfold validate_scatterer.
+  pose proof (guess_l pname apply_fn (fun id => vnum (pguess id)) (dict_pv (fun x => x) (scat_params s)) "") as G.
+  destruct (conv pname (dict_pv (fun x => x) (scat_params s)) "" st0) as [ms st]. rewrite G, (subst_dict _ _ _ Hn).
+  rewrite dummy_keep_smap, scat_subst_smap. apply from_parameters_full, Hg.
+Qed.
+
+(** ================================================================================================
+    8. statements in the form used by Props.v *)
+
+Lemma names_nodup_seq pname ts st : Inv st -> Inv (snd (conv_seq pname ts st)).
+Proof. apply (conv_seq_ok pname (fun _ _ => VErr) ts st). Qed.
+
+Lemma one_param_per_prior_seq pname ts :
+  let ids := flat_map (fun tn : pv * string => sites (fst tn)) ts in
+  let ps := params (snd (conv_seq pname ts st0)) in
+  ps = add_new [] ids /\ NoDup ps /\ (forall id, In id ps <-> In id ids).
+Proof.
+  cbv zeta. destruct (conv_seq_ok pname (fun _ _ => VErr) ts st0) as [H _]. rewrite H. simpl params.
+  split; [reflexivity|]. split; [apply add_new_NoDup; constructor|].
+  intros id. rewrite add_new_In. simpl. tauto.
+Qed.
+
+Lemma read_convert_seq pname ap ts st final vals :
+  ext (params (snd (conv_seq pname ts st))) final ->
+  map (fun m => read_map ap m vals) (fst (conv_seq pname ts st)) =
+  map (fun tn : pv * string => subst ap (sig final vals) (fst tn)) ts.
+Proof. apply (conv_seq_ok pname ap ts st). Qed.
+
+Lemma edit_index_is_position_l i0 J : asc (S i0) J ->
+  forall old,
+    (In old (i0 :: J) -> edit_idx (i0 :: J) old = i0) /\
+    (~ In old J -> forall {A} (l : list A) d, nth (edit_idx (i0 :: J) old) (drop_pos J 0 l) d = nth old l d).
+Proof.
+  intros Ha old. split; [apply edit_idx_tied|]. intros Hout A l d.
+  pose proof (asc_NoDup _ _ Ha) as Hn.
+  destruct (Nat.eq_dec old i0) as [->|Hne].
+  - rewrite edit_idx_tied by (left; reflexivity).
+    rewrite <- (nth_drop_pos d J Hn l 0 i0 Hout). simpl. f_equal.
+    rewrite cnt_none; [lia|]. intros j Hj. pose proof (asc_ge _ _ _ Ha Hj). lia.
+  - rewrite edit_idx_other, count_lt_cnt; [apply (nth_drop_pos d J Hn l 0 old Hout)|exact Ha|].
+    intros [E|E]; [congruence|contradiction].
+Qed.
+
+Lemma flatten_unflatten_keys_l {A} cls (ms : list (scat A)) j x :
+  nth_error ms j = Some x -> collect j (scat_params (SGroup cls ms)) = scat_params x.
+Proof.
+  intros H. pose proof (collect_pgo (fun v : A => v) ms 0 j x H) as C.
+  assert (I2 : forall l : list (string * A), vmap (fun v => v) l = l).
+  { intros l. unfold vmap. rewrite <- (map_id l) at 2. apply map_ext. intros [k v]. reflexivity. }
+  rewrite !I2 in C. rewrite scat_params_group. exact C.
+Qed.
+
+(** the parameter list written as the usual right-recursive "keep the first occurrence" *)
+Fixpoint first_occ (seen ids : list nat) : list nat :=
+  match ids with
+  | [] => []
+  | x :: r => match find_id x seen with
+              | Some _ => first_occ seen r
+              | None => x :: first_occ (seen ++ [x]) r
+              end
+  end.
+Lemma add_new_first_occ : forall ids ps, add_new ps ids = ps ++ first_occ ps ids.
+Proof.
+  induction ids as [|x r IH]; intros ps; simpl; [rewrite app_nil_r; reflexivity|].
+  unfold add1. destruct (find_id x ps); rewrite IH; [reflexivity|]. rewrite <- app_assoc. reflexivity.
+Qed.
